@@ -6,6 +6,7 @@ CONSTANTS
   Kinds = {"close", "keep", "ws"}
   SigTwice = FALSE
   Dev = {}
+  Faults = {}
 SPECIFICATION Spec
 INVARIANTS Never_ReturnedSaturated
 CHECK_DEADLOCK FALSE
